@@ -1,7 +1,7 @@
 """C02 - decoding preserves every field on the wire and re-encodes byte-identically (structural clauses)."""
 import ast
 
-from ..astutil import make_cfg, call_name, fn_calls, must_pass, node_calls, walk_no_nested, kwarg
+from ..astutil import strip_doc, make_cfg, call_name, fn_calls, must_pass, node_calls, walk_no_nested, kwarg
 from ..paths import enum_paths, eval_bool
 from .. import avpdict
 
@@ -189,57 +189,65 @@ def check(ctx):
         ctx.decide({"code", "flags", "vendor_id", "data"} <= wire, "R-FLOW/wire-fields", construct, avp.where(ld),
                    f"wire fields parsed: {sorted(wire)}", f"wire fields parsed are {sorted(wire)}: code/flags/vendor_id/data expected",
                    key="parsed", nontrivial=False)
-        # registry-built object
-        cls_var = obj_var = None
-        ctor = None
-        for n in walk_no_nested(ld):
-            if isinstance(n, ast.Assign) and isinstance(n.value, ast.Call) and call_name(n.value).endswith("get_avp_class") \
-                    and isinstance(n.targets[0], ast.Name):
-                cls_var = n.targets[0].id
-        for n in walk_no_nested(ld):
-            if isinstance(n, ast.Assign) and isinstance(n.value, ast.Call) and isinstance(n.value.func, ast.Name) \
-                    and n.value.func.id == cls_var and isinstance(n.targets[0], ast.Name):
-                obj_var, ctor = n.targets[0].id, n.value
-        if ctor is None:
-            ctx.undecided("R-FLOW/wire-fields", construct, avp.where(ld), "registry-dispatched constructor call not found", key="ctor")
+        # registry-built object, on the terms of one loop iteration (bsa.sym): T = the temporary DiameterAVP()
+        from .c01 import avp_loop_paths
+        from .. import sym as _s
+        lp_ = avp_loop_paths(repo, avp, ld)
+        T = ("call", ("name", "DiameterAVP"), (), ())
+        if lp_ is None:
+            ctx.undecided("R-FLOW/wire-fields", construct, avp.where(ld), "reader loop not recognised", key="ctor")
         else:
-            flows = set()
-            for a in list(ctor.args) + [k.value for k in ctor.keywords]:
-                t = ast.unparse(a)
-                for f in ("data", "flags", "vendor_id", "code"):
-                    if t in (f"{tmp}.{f}", f"{tmp}._{f}"):
-                        flows.add(f)
-            for n in walk_no_nested(ld):
-                if isinstance(n, ast.Assign):
-                    for t in n.targets:
-                        if isinstance(t, ast.Attribute) and isinstance(t.value, ast.Name) and t.value.id == obj_var:
-                            f = t.attr.lstrip("_")
-                            if ast.unparse(n.value) in (f"{tmp}.{f}", f"{tmp}._{f}"):
-                                flows.add(f)
-            for f in ("data", "flags"):
-                ctx.decide(f in flows, "R-FLOW/wire-fields", construct, avp.where(ctor),
-                           f"wire {f} flows into the dictionary-class object",
-                           f"the wire `{f}` field of a known AVP does not flow into the object built by the dictionary class "
-                           f"(only {sorted(flows)} do): the decoded AVP carries the class default instead of what was on the wire",
-                           key=f"flow:{f}")
-            # the object appended is the one built; the unknown branch appends the temporary itself
-            apps = [c for c in fn_calls(ld) if call_name(c).endswith(".append") and c.args]
-            app_args = [ast.unparse(c.args[0]) for c in apps]
-            ctx.decide(sorted(app_args) == sorted([obj_var, tmp]), "R-FLOW/wire-fields", construct, avp.where(ld),
-                       "known AVPs append the class object, unknown ones the generic AVP",
-                       f"load appends {app_args}", key="appended")
-            # unknown branch is the KeyError handler of the dispatch
-            ok = False
-            for n in walk_no_nested(ld):
-                if isinstance(n, ast.Try):
-                    in_body = any(isinstance(x, ast.Call) and call_name(x).endswith("get_avp_class") for s in n.body for x in ast.walk(s))
-                    for h in n.handlers:
-                        if in_body and h.type is not None and "KeyError" in ast.unparse(h.type) and \
-                                any(isinstance(x, ast.Call) and call_name(x).endswith(".append") and ast.unparse(x.args[0]) == tmp
-                                    for s in h.body for x in ast.walk(s)):
-                            ok = True
-            ctx.decide(ok, "R-DOM/unknown-avp", construct, avp.where(ld), "an unknown (vendor, code) falls back to the generic AVP",
-                       "a (vendor, code) missing from the registry is not materialised as the generic AVP", key="unknown")
+            loop_, paths_, idx_, obj_ = lp_
+            done = [p_ for p_ in paths_ if p_.term in ("fall", "continue")
+                    and not any(isinstance(c[0], tuple) and c[0][0] == "exc" and c[0][1] == "IndexError" for c in p_.conds)]
+
+            def mentions(t, what):
+                if t == what:
+                    return True
+                return isinstance(t, tuple) and any(mentions(x, what) for x in t if isinstance(x, tuple))
+            flows, app_ok, unk_ok, n_known, n_unknown, shown = None, True, True, 0, 0, []
+            for p_ in done:
+                apps = [e[1][2][0] for e in p_.effects if e[0] == "call" and isinstance(e[1], tuple) and e[1][0] == "call"
+                        and e[1][1][0] == "attr" and e[1][1][2] == "append" and len(e[1][2]) == 1]
+                keyerr = any(isinstance(c[0], tuple) and c[0][0] == "exc" and "KeyError" in c[0][1] for c in p_.conds)
+                shown.append(("unknown" if keyerr else "known", [_s.show(a)[:60] for a in apps]))
+                if keyerr:
+                    n_unknown += 1
+                    unk_ok = unk_ok and apps == [T]
+                    continue
+                n_known += 1
+                good = len(apps) == 1 and isinstance(apps[0], tuple) and apps[0][0] == "call" and isinstance(apps[0][1], tuple) \
+                    and apps[0][1][0] == "call" and _s.show(apps[0][1][1]).endswith("get_avp_class") and apps[0][1][2] == (T,)
+                app_ok = app_ok and good
+                if not good:
+                    continue
+                built = apps[0]
+                fl = set()
+                for a_ in list(built[2]) + [v for _, v in built[3]]:
+                    for f in ("data", "flags", "vendor_id", "code"):
+                        if a_ in (("attr", T, f), ("attr", T, "_" + f)) or a_ == p_.get(f"{obj_}._{f}", object()):
+                            fl.add(f)
+                for e in p_.effects:
+                    if e[0] == "store" and isinstance(e[1], str) and "." in e[1] and p_.get(e[1].rsplit(".", 1)[0]) == built:
+                        f = e[1].rsplit(".", 1)[1].lstrip("_")
+                        if e[2] in (("attr", T, f), ("attr", T, "_" + f)) or e[2] == p_.get(f"{obj_}._{f}", object()):
+                            fl.add(f)
+                flows = fl if flows is None else flows & fl
+            if n_known == 0:
+                ctx.undecided("R-FLOW/wire-fields", construct, avp.where(ld), "registry-dispatched constructor call not found", key="ctor")
+            else:
+                for f in ("data", "flags"):
+                    ctx.decide(f in (flows or set()), "R-FLOW/wire-fields", construct, avp.where(loop_),
+                               f"wire {f} flows into the dictionary-class object",
+                               f"the wire `{f}` field of a known AVP does not flow into the object built by the dictionary class "
+                               f"(only {sorted(flows or set())} do): the decoded AVP carries the class default instead of what was on the wire",
+                               key=f"flow:{f}")
+                ctx.decide(app_ok and unk_ok, "R-FLOW/wire-fields", construct, avp.where(ld),
+                           "known AVPs append the class object, unknown ones the generic AVP",
+                           f"load appends {shown}", key="appended")
+                ctx.decide(n_unknown > 0 and unk_ok, "R-DOM/unknown-avp", construct, avp.where(ld),
+                           "an unknown (vendor, code) falls back to the generic AVP",
+                           "a (vendor, code) missing from the registry is not materialised as the generic AVP", key="unknown")
 
     # the V-flag predicate used by the decoder masks the parsed flags with 0x80
     um = ctx.need(repo.mods.get("bromelia.utils"), "module bromelia.utils")
@@ -307,13 +315,14 @@ def check(ctx):
 def _splitter(ctx, repo, msg):
     ld = ctx.need(msg.methods.get("load"), "DiameterMessage.load")
     construct = f"{msg.qual}.load"
-    loop = next((s for s in ld.body if isinstance(s, ast.While)), None)
+    loop = next((s for s in walk_no_nested(ld) if isinstance(s, ast.While)), None)
     if loop is None:
         ctx.undecided("R-MUSTPASS/splitter", construct, msg.where(ld), "no while loop", key="loop")
         return
     test_names = {n.id for n in ast.walk(loop.test) if isinstance(n, ast.Name)}
-    idx = next((x.target.id for x in walk_no_nested(loop) if isinstance(x, ast.AugAssign) and isinstance(x.target, ast.Name)
-                and x.target.id in test_names), "index")
+    stored = {t.id for x in walk_no_nested(loop) if isinstance(x, (ast.Assign, ast.AugAssign))
+              for t in (x.targets if isinstance(x, ast.Assign) else [x.target]) if isinstance(t, ast.Name)}
+    idx = next((n for n in sorted(test_names) if n in stored), "index")
     # the loop must go on whenever at least one minimal (20-octet, header-only) message is still unconsumed:
     # rewrite the test over r = len(stream) - index and normalise it with the interval algebra
     from ..intervals import ISet, test_set, Undecidable
@@ -345,73 +354,57 @@ def _splitter(ctx, repo, msg):
     except Undecidable as e:
         ctx.undecided("R-TABLE/splitter", construct, msg.where(loop), f"loop test not normalisable over the remaining length: {e}",
                       key="loop_continues")
-    env = {}
-    for s in walk_no_nested(loop):
-        if isinstance(s, ast.Assign) and len(s.targets) == 1 and isinstance(s.targets[0], ast.Name):
-            env[s.targets[0].id] = s.value
-
-    def expand(e, d=0):
-        if isinstance(e, ast.Name) and e.id in env and d < 5 and e.id != idx:
-            return expand(env[e.id], d + 1)
-        return e
-
-    def txt(e):
-        class T(ast.NodeTransformer):
-            def visit_Name(self, node):
-                if node.id in env and node.id != idx and not isinstance(env[node.id], ast.Call):
-                    return T().visit(ast.parse(ast.unparse(env[node.id]), mode="eval").body)
-                return node
-        import copy
-        return ast.unparse(T().visit(copy.deepcopy(e)))
-    # message construction
-    mk = [c for c in fn_calls(loop.body) if call_name(c) in ("DiameterMessage", "cls")]
-    if len(mk) != 1:
-        ctx.undecided("R-MUSTPASS/splitter", construct, msg.where(loop), "expected one DiameterMessage(...) per iteration", key="ctor")
+    # one iteration on terms: I = index at the message start.  On every completing path exactly one
+    # DiameterMessage(H, A, loaded=True) is appended with H = DiameterHeader.load(stream[I:I+20]),
+    # A = DiameterAVP.load(stream[I+20 : I+H.get_length()]) and the index becomes I + H.get_length().
+    from .. import sym
+    I, ST = sym.S("int:I"), sym.S("stream")
+    params = [a_.arg for a_ in ld.args.args if a_.arg not in ("self", "cls")]
+    sname = params[0] if params else "stream"
+    it = sym.Interp(fold=lambda e: repo.fold(msg.mod, e))
+    try:
+        paths = it.loop_body(loop, {idx: I, sname: ST})
+    except sym.TooMany:
+        ctx.undecided("R-MUSTPASS/splitter", construct, msg.where(loop), "too many paths through the loop body", key="ctor")
         return
-    c = mk[0]
-    h = c.args[0] if c.args else kwarg(c, "header")
-    a = c.args[1] if len(c.args) > 1 else kwarg(c, "avps")
-    lo = c.args[2] if len(c.args) > 2 else kwarg(c, "loaded")
-    ctx.decide(isinstance(lo, ast.Constant) and lo.value is True, "R-DOM/loaded", construct, msg.where(c),
-               "decoded messages are constructed with loaded=True",
-               "decoded messages are not constructed with loaded=True: append() recomputes the Message Length instead of "
-               "keeping the one on the wire", key="loaded")
-    hv = expand(h)
-    hs = txt(hv.args[0]) if isinstance(hv, ast.Call) and call_name(hv) == "DiameterHeader.load" and hv.args else None
-    hdr_len = repo.fold(msg.mod, ast.Name(id="DIAMETER_HEADER_LENGTH", ctx=ast.Load()))
-    ok = hs in (f"stream[{idx}:{idx} + DIAMETER_HEADER_LENGTH]", f"stream[{idx}:{idx} + 20]") and hdr_len == 20
-    ctx.decide(ok, "R-TABLE/splitter", construct, msg.where(c), "header parsed from stream[index:index+20]",
-               f"header is parsed from `{hs}`", key="header_slice")
-    av = expand(a)
-    hname = h.id if isinstance(h, ast.Name) else None
-    as_ = txt(av.args[0]) if isinstance(av, ast.Call) and call_name(av) == "DiameterAVP.load" and av.args else None
-    want = {f"stream[{idx} + DIAMETER_HEADER_LENGTH:{idx} + {hname}.get_length()]", f"stream[{idx} + 20:{idx} + {hname}.get_length()]"}
-    ctx.decide(as_ in want, "R-TABLE/splitter", construct, msg.where(c),
-               "AVPs parsed from stream[index+20 : index+Message Length]",
-               f"AVPs are parsed from `{as_}`, expected stream[{idx}+20:{idx}+header.get_length()]", key="avp_slice")
-    adv = [s for s in loop.body if isinstance(s, ast.AugAssign) and isinstance(s.target, ast.Name) and s.target.id == idx]
-    ctx.decide(len(adv) == 1 and ast.unparse(adv[0].value) == f"{hname}.get_length()", "R-TABLE/splitter", construct,
-               msg.where(loop), "index advances by the Message Length",
-               f"index advances by `{ast.unparse(adv[0].value) if adv else None}`", key="advance")
-    # exactly one append of the constructed message per iteration
-    cfg = make_cfg(repo, ld)
-    lnode = next(n for n in cfg.nodes.values() if n.kind == "test" and n.extra is loop)
-    mv = None
-    for s in loop.body:
-        if isinstance(s, ast.Assign) and s.value is c and isinstance(s.targets[0], ast.Name):
-            mv = s.targets[0].id
-    apps = [n for n in cfg.nodes.values() if n.kind == "stmt" and isinstance(n.ast, ast.Expr) and isinstance(n.ast.value, ast.Call)
-            and call_name(n.ast.value).endswith(".append") and n.ast.value.args and
-            (ast.unparse(n.ast.value.args[0]) == mv or n.ast.value.args[0] is c)]
-    start = [t for t, l in cfg.succ[lnode.id] if l == "T"]
-    once = len(apps) == 1 and start and must_pass(cfg, lambda n: n in apps, start=start[0], targets={lnode.id})
-    ctx.decide(once, "R-MUSTPASS/splitter", construct, msg.where(loop),
-               "exactly one append of the constructed message per iteration",
-               "the constructed message is not appended exactly once per iteration (lost or duplicated message)", key="append_once")
-    tgt = call_name(apps[0].ast.value)[:-7] if apps else None
+    done = [p_ for p_ in paths if p_.term in ("fall", "continue")]
+    if not done:
+        ctx.undecided("R-MUSTPASS/splitter", construct, msg.where(loop), "no completing path through the loop body", key="ctor")
+        return
+    H = ("call", ("attr", ("name", "DiameterHeader"), "load"), (("slice", ST, I, sym.add(I, 20)),), ())
+    HL = ("call", ("attr", H, "get_length"), (), ())
+    A = ("call", ("attr", ("name", "DiameterAVP"), "load"), (("slice", ST, sym.add(I, 20), sym.add(I, HL)),), ())
+    lists = set()
+    for p_ in done:
+        apps = [e for e in p_.effects if e[0] == "call" and isinstance(e[1], tuple) and e[1][0] == "call"
+                and e[1][1][0] == "attr" and e[1][1][2] == "append" and len(e[1][2]) == 1]
+        built = [e[1][2][0] for e in apps if isinstance(e[1][2][0], tuple) and e[1][2][0][0] == "call"
+                 and e[1][2][0][1] in (("name", "DiameterMessage"), ("name", "cls"))]
+        ctx.decide(len(apps) == 1 and len(built) == 1, "R-MUSTPASS/splitter", construct, msg.where(loop),
+                   "exactly one append of the constructed message per iteration",
+                   f"the constructed message is not appended exactly once per iteration (lost or duplicated message): "
+                   f"{[sym.show(e[1])[:80] for e in apps]}", key="append_once")
+        if len(built) != 1:
+            continue
+        lists.add(sym.show(apps[0][1][1][1]))
+        m = built[0]
+        kw = dict(m[3])
+        h = m[2][0] if m[2] else kw.get("header")
+        a = m[2][1] if len(m[2]) > 1 else kw.get("avps")
+        lo = m[2][2] if len(m[2]) > 2 else kw.get("loaded")
+        ctx.decide(lo is True, "R-DOM/loaded", construct, msg.where(loop), "decoded messages are constructed with loaded=True",
+                   "decoded messages are not constructed with loaded=True: append() recomputes the Message Length instead of "
+                   "keeping the one on the wire", key="loaded")
+        ctx.decide(h == H, "R-TABLE/splitter", construct, msg.where(loop), "header parsed from stream[index:index+20]",
+                   f"header is parsed from `{sym.show(h)}`", key="header_slice")
+        ctx.decide(a == A, "R-TABLE/splitter", construct, msg.where(loop), "AVPs parsed from stream[index+20 : index+Message Length]",
+                   f"AVPs are parsed from `{sym.show(a)}`, expected DiameterAVP.load(stream[I+20:I+header.get_length()])", key="avp_slice")
+        adv = sym.add(p_.get(idx), I, -1)
+        ctx.decide(adv == HL, "R-TABLE/splitter", construct, msg.where(loop), "index advances by the Message Length",
+                   f"index advances by `{sym.show(adv)}`", key="advance")
     rets = [ast.unparse(n.value) for n in ast.walk(ld) if isinstance(n, ast.Return) and n.value is not None]
-    ctx.decide(rets == [tgt], "R-MUSTPASS/splitter", construct, msg.where(ld), "returns the list in append order",
-               f"returns {rets}", key="return", nontrivial=False)
+    ctx.decide(len(lists) == 1 and rets == sorted(lists), "R-MUSTPASS/splitter", construct, msg.where(ld), "returns the list in append order",
+               f"returns {rets} while the messages are appended to {sorted(lists)}", key="return", nontrivial=False)
     # constructor: self._loaded = loaded precedes the appends
     ini = ctx.need(msg.methods.get("__init__"), "DiameterMessage.__init__")
     icfg = make_cfg(repo, ini)
@@ -422,61 +415,96 @@ def _splitter(ctx, repo, msg):
     ctx.decide(ok, "R-DOM/loaded", f"{msg.qual}.__init__", msg.where(ini), "the loaded flag is stored before the AVPs are appended",
                "DiameterMessage.__init__ appends the AVPs before (or without) storing the loaded flag", key="loaded_first")
     apf = ctx.need(msg.methods.get("append"), "DiameterMessage.append")
-    guard = [n for n in walk_no_nested(apf) if isinstance(n, ast.If) and ast.unparse(n.test) in ("not self._loaded", "not self.loaded")]
-    stores = [n for n in walk_no_nested(apf) if isinstance(n, ast.Assign) and ast.unparse(n.targets[0]) == "self.header.length"]
-    ok = bool(guard) and all(any(s is x for g in guard for x in ast.walk(g)) for s in stores)
-    ctx.decide(ok, "R-DOM/loaded", f"{msg.qual}.append", msg.where(apf), "length is only touched when not loaded",
+    from .. import sym as _sym
+    ok, n_st = True, 0
+    for p_ in _sym.Interp().run(strip_doc(apf.body)):
+        st_ = [e for e in p_.effects if e[0] == "store" and e[1] == "self.header.length"]
+        n_st += len(st_)
+        unl = [tv for c, tv in p_.conds if _sym.show(c) in ("self._loaded", "self.loaded")]
+        if st_ and unl != [False]:
+            ok = False
+    ctx.decide(ok and n_st > 0, "R-DOM/loaded", f"{msg.qual}.append", msg.where(apf), "length is only touched when not loaded",
                "append updates the Message Length outside the `if not self._loaded` guard", key="loaded_guard")
 
 
 def _registry(ctx, repo):
+    """Writer and reader of the (vendor, code) -> class table, decided on the terms they build (bsa.sym): one loop
+    iteration of the writer must leave table[K][X.code] = X without replacing an existing bucket, the reader must
+    return table[K][P.code], and both must pick K = the Vendor-ID, or VENDOR_ID_DEFAULT when it is None."""
+    from .. import sym
     ldr = ctx.need(repo.cls("bromelia.base.DiameterAvpLoader"), "DiameterAvpLoader")
     w = ctx.need(ldr.methods.get("_get_load_avps_dictionary"), "_get_load_avps_dictionary")
     r = ctx.need(ldr.methods.get("get_avp_class"), "get_avp_class")
-    # writer: update({K1: {K2: v}}) or X[K1].update({K2: v})
-    pairs = []
-    for c in fn_calls(w):
-        if isinstance(c.func, ast.Attribute) and c.func.attr == "update" and c.args and isinstance(c.args[0], ast.Dict):
-            d = c.args[0]
-            tgt = c.func.value
-            if isinstance(tgt, ast.Subscript):
-                k1 = ast.unparse(tgt.slice)
-                for k, v in zip(d.keys, d.values):
-                    pairs.append((k1, ast.unparse(k), ast.unparse(v)))
+    bm = ldr.mod
+    default = repo.fold(bm, ast.Name(id="VENDOR_ID_DEFAULT", ctx=ast.Load()))
+    wq, rq = f"{ldr.qual}._get_load_avps_dictionary", f"{ldr.qual}.get_avp_class"
+    loops = [n for n in walk_no_nested(w) if isinstance(n, ast.For) and isinstance(n.target, ast.Name)]
+    if len(loops) != 1 or not isinstance(default, bytes):
+        ctx.undecided("R-TABLE/registry", wq, ldr.where(w), "expected one loop over the AVP classes and a constant default vendor", key="writer")
+        return
+    lp = loops[0]
+    X = sym.S(lp.target.id)
+    it = sym.Interp(fold=lambda e: repo.fold(bm, e))
+    itx = ast.unparse(lp.iter)
+    src_ok = itx == "DiameterAVP.__subclasses__()"
+    if isinstance(lp.iter, ast.Name):
+        defs = [n.value for n in walk_no_nested(w) if isinstance(n, ast.Assign) and len(n.targets) == 1
+                and isinstance(n.targets[0], ast.Name) and n.targets[0].id == lp.iter.id]
+        src_ok = len(defs) == 1 and ast.unparse(defs[0]) == "DiameterAVP.__subclasses__()"
+    ctx.decide(src_ok, "R-TABLE/registry", wq, ldr.where(w), "registry enumerates DiameterAVP.__subclasses__()",
+               f"registry is built from `{itx}`, not from DiameterAVP.__subclasses__()", key="subclasses", nontrivial=False)
+
+    def vend_none(p_, obj):
+        for c, tv in p_.conds:
+            if c == ("cmp", "Is", ("attr", obj, "vendor_id"), None):
+                return tv
+        return None
+
+    def key_ok(p_, K, obj):
+        vn = vend_none(p_, obj)
+        if vn is True:
+            return K == default
+        if vn is False:
+            return K == ("attr", obj, "vendor_id")
+        return False
+    rows, okw = [], True
+    code = ("attr", X, "code")
+    for p_ in it.loop_body(lp, {}):
+        if p_.term not in ("fall", "continue"):
+            okw = False
+            rows.append(f"path ends with {p_.term}")
+            continue
+        final, clobber = None, False
+        for e in [e for e in p_.effects if e[0] == "setitem"]:
+            base, key, val = e[1], e[2], e[3]
+            fresh = any(c == ("cmp", "In", key, base) and tv is False for c, tv in p_.conds)
+            if isinstance(base, tuple) and base[0] == "sub" and key == code and val == X:
+                final = base[2]
+            elif val == ("dict", ((code, X),)):
+                final = key
+                clobber = clobber or not fresh
+            elif val == ("dict", ()):
+                clobber = clobber or not fresh
             else:
-                for k, v in zip(d.keys, d.values):
-                    if isinstance(v, ast.Dict):
-                        for k2, v2 in zip(v.keys, v.values):
-                            pairs.append((ast.unparse(k), ast.unparse(k2), ast.unparse(v2)))
-    for n in walk_no_nested(w):
-        if isinstance(n, ast.Assign) and isinstance(n.targets[0], ast.Subscript) and isinstance(n.targets[0].value, ast.Subscript):
-            pairs.append((ast.unparse(n.targets[0].value.slice), ast.unparse(n.targets[0].slice), ast.unparse(n.value)))
-    loopvar = None
-    for n in walk_no_nested(w):
-        if isinstance(n, ast.For) and isinstance(n.target, ast.Name):
-            loopvar = n.target.id
-    ok = bool(pairs) and all(k1 in (f"{loopvar}.vendor_id", "VENDOR_ID_DEFAULT") and k2 == f"{loopvar}.code" and v == loopvar
-                             for k1, k2, v in pairs)
-    ctx.decide(ok, "R-TABLE/registry", f"{ldr.qual}._get_load_avps_dictionary", ldr.where(w),
-               "registry is written as [vendor][code] -> class",
-               f"registry writes {pairs}: expected [vendor][code] -> class", key="writer")
-    src = ast.unparse(w)
-    ctx.decide("DiameterAVP.__subclasses__()" in src, "R-TABLE/registry", f"{ldr.qual}._get_load_avps_dictionary", ldr.where(w),
-               "registry enumerates DiameterAVP.__subclasses__()", "registry is not built from DiameterAVP.__subclasses__()",
-               key="subclasses", nontrivial=False)
-    p = [a.arg for a in r.args.args if a.arg != "self"][0]
-    rets = [n.value for n in walk_no_nested(r) if isinstance(n, ast.Return) and n.value is not None]
-    rk = []
-    for v in rets:
-        if isinstance(v, ast.Subscript) and isinstance(v.value, ast.Subscript):
-            rk.append((ast.unparse(v.value.slice), ast.unparse(v.slice)))
-    ok = len(rk) == 2 and all(k1 in (f"{p}.vendor_id", "VENDOR_ID_DEFAULT") and k2 == f"{p}.code" for k1, k2 in rk) \
-        and {k1 for k1, _ in rk} == {f"{p}.vendor_id", "VENDOR_ID_DEFAULT"}
-    ctx.decide(ok, "R-TABLE/registry", f"{ldr.qual}.get_avp_class", ldr.where(r), "registry is read as [vendor][code]",
-               f"registry is read with keys {rk}: writer uses [vendor][code]", key="reader")
-    # the vendor-less branch of reader and writer are selected by the same predicate kind (None test)
-    wt = [ast.unparse(n.test) for n in walk_no_nested(w) if isinstance(n, ast.If) and "vendor_id" in ast.unparse(n.test)]
-    rt = [ast.unparse(n.test) for n in walk_no_nested(r) if isinstance(n, ast.If) and "vendor_id" in ast.unparse(n.test)]
-    ok = bool(wt) and bool(rt) and wt[0].replace(loopvar or "", "X") == rt[0].replace(p, "X")
-    ctx.decide(ok, "R-SIB/registry", f"{ldr.qual}", ldr.where(), "reader and writer select the vendor-less slot by the same test",
-               f"writer selects the vendor-less slot with `{wt}` but the reader with `{rt}`", key="none_test")
+                final = ("?", sym.show(key), sym.show(val))
+        rows.append((vend_none(p_, X), sym.show(final) if final is not None else None, clobber))
+        okw = okw and final is not None and not clobber and key_ok(p_, final, X)
+    ctx.decide(okw and bool(rows), "R-TABLE/registry", wq, ldr.where(w), "registry is written as [vendor][code] -> class",
+               f"registry writes (vendor is None, key, replaces an existing bucket) = {rows}: expected table[vendor or default][code] = class "
+               f"without replacing a bucket that already exists", key="writer")
+    params = [a.arg for a in r.args.args if a.arg != "self"]
+    P = sym.S(params[0]) if params else None
+    rrows, okr = [], bool(params)
+    for p_ in sym.Interp(fold=lambda e: repo.fold(bm, e)).run(strip_doc(r.body), sym.PathState({params[0]: P} if params else {}, [], [])):
+        if p_.term != "return":
+            if p_.term == "fall":
+                okr = False
+                rrows.append("falls off the end")
+            continue
+        v = p_.value
+        good = isinstance(v, tuple) and v[0] == "sub" and v[2] == ("attr", P, "code") and isinstance(v[1], tuple) and v[1][0] == "sub" \
+            and key_ok(p_, v[1][2], P)
+        rrows.append((vend_none(p_, P), sym.show(v)))
+        okr = okr and good
+    ctx.decide(okr and bool(rrows), "R-TABLE/registry", rq, ldr.where(r), "registry is read as [vendor][code]",
+               f"registry is read as (vendor is None, value) = {sorted(set(map(str, rrows)))}: the writer stores table[vendor or default][code]", key="reader")
